@@ -27,26 +27,44 @@ LEVEL_TEXT = ("Coq theorems over an executable model of the haplotype-block code
               "runs, decode = labels, adjacent runs differ); block values over any partition add up to the copy's additive value; OHV/OPV = "
               "ploidy * sum over blocks of the best designated copy (upper bound, attained), >= every block-boundary recombinant, for every "
               "cross of the (proved valid) cross map of every problem that is built. The model is evaluated inside Coq (vm_compute) against "
-              "the implementation's outputs on generated layouts.")
+              "the implementation's outputs on generated layouts. "
+              "PHASE 2: the kernel expressions of the current source (guards, index expressions, operation order of the ideal counts, argmin, "
+              "linspace arguments, closed bin test, repair-pass bound, run test, slices of the block value, shape, cross-map branches, ploidy "
+              "scaling, the six latent functions; all four copies of the haplotype-matrix builder) are regenerated on every run into "
+              "Gen/C18_Kernel.v; the code composed from them (g_*) is proved equal to the hand model and the apportionment, cover-once/"
+              "monotone, run-length, conservation (four builders) and OHV-problem theorems are restated about the generated code itself, so a "
+              "changed expression breaks Props/C18.vo independently of the sampled cases.")
 LEVEL_NOTE = ("trusted: Coq kernel + vm_compute, PrimFloat primitives + FloatAxioms specs, classical reals via Flocq (binary64 order only); "
               "numpy.empty is instrumented by the driver to return NaN/-1 filled arrays so that never-written entries are observable (modelled "
               "as None); block values, OHV/OPV sums are compared as exact rationals on dyadic grids (BLAS/numpy summation order not modelled); "
               "real/integer/binary OHV latentfn and the genotype-builder latentfn within 2^-30 of the exact rational; finiteness of the binary64 "
-              "linspace boundaries is checked per case, not proved in general; theorems are about the Gallina model, the tie to the code is "
-              "differential on generated inputs")
+              "linspace boundaries is checked per case, not proved in general; theorems are about the Gallina model and about the code composed "
+              "from the regenerated kernel expressions; the tie of loops/data flow to the code is differential on generated inputs, the tie of the "
+              "kernel expressions is by regeneration (translator harness/translate/c18_kernel.py in the trusted base; statements the model "
+              "abstracts — chunking of _calc_ohvmat, order of loop bodies, allocation — are pinned textually and fail closed)")
 TECHNIQUE = "Coq proof over an executable model (generic order; PrimFloat/Flocq and Q instances); in-Coq vm_compute correspondence"
 RULE = ("case = (kind helpers|haplomat|ohv{Subset,Real,Integer,Binary via the selection protocols}|opv|gb, marker layout = chromosome "
         "lengths + genetic positions, requested block total, genotypes, effects, parent tuples / selections, chunk size); layouts from one "
         "PRNG: per chromosome one of even grid (markers exactly on bin boundaries), random grid with duplicates, cluster + far marker (empty "
         "equal-width bin: the repair pass of haplobin moves markers), all-equal/duplicated positions, single marker, off-grid floats (j/7, j/3, random) where linspace rounding decides; "
         "1-4 chromosomes, totals from #chr to #markers plus totals below #chr and above #markers, explicit per-chromosome counts, a few "
-        "unsorted layouts; non-trivial = >= 3 markers, >= 2 blocks requested, >= 2 labels used; "
-        "distinct by SHA-256 of the case")
+        "unsorted layouts; positions scaled by 2^-40..2^20 (whole genome) and 2^-12..2^12 (single chromosomes), gaps of 2^-30..2^-45 next to "
+        "exact ties, effects scaled by 2^-40..2^20, 1-4 phases; the genotype matrix object obtained by constructor, copy, deepcopy, mat setter, "
+        "shuffled variants + group_vrnt, select_taxa; OHV sessions: the same protocol object / matrix / model reused after nhaploblk, "
+        "unique_parents, nparent setters and in-place updates of genotypes, positions, effects (second problem = fresh construction); "
+        "problems: latentfn twice, on copy/deepcopy, after the matrix setter, stored matrix and inputs unchanged, result detached from later "
+        "in-place input changes; _calc_ohvmat with its own ploidy argument; fixed cases: one block more than markers in every builder, 280 "
+        "and 140 blocks (labels beyond int8/uint8), 1081 crosses (> the factory's chunk of 1024); the entry-point table ENTRY/SKIPPED/PARAMS is "
+        "compared with the modules by introspection on every run (fail closed); "
+        "non-trivial = >= 3 markers, >= 2 blocks requested, >= 2 labels used; distinct by SHA-256 of the case")
 TRUSTED = ["numpy.empty instrumented (driver only) so that unwritten entries are visible as NaN / -1",
            "binary64 sums of 0/1 genotypes times effects k/2^8 (|k/2^8| <= 16) are exact: compared as exact rationals",
            "numpy.linspace = arange(0,num)*((stop-start)/div)+start with the last point replaced by stop (numpy 2.x function_base.linspace)",
            "numpy add.reduce over fewer than 8 contiguous float64 is a left-to-right loop",
-           "latentfn of the real/integer/binary OHV problems and of the genotype builder are compared within 2^-30 of the exact rational"]
+           "latentfn of the real/integer/binary OHV problems and of the genotype builder are compared within 2^-30 of the exact rational",
+           "harness/translate/c18_kernel.py (ast -> Gallina for the kernel expressions; sorts O = abstract positions, N = counts/indices, Z, Q; "
+           "glue: zmax3, linspace_num, triudix/triuix = the model's xmap_from)",
+           "scaling by a power of two commutes with every binary64 operation of the code (no overflow/underflow in the generated ranges)"]
 ASSUMPTIONS = ["genetic positions sorted within chromosomes, chromosome groups tile 0..p (as group_vrnt() produces)",
                "alleles in {0,1} (int8), effects finite", "fewer than 8 chromosomes when positions are off the dyadic grid"]
 
